@@ -300,6 +300,8 @@ def build():
             && (ret is Ok ==> final(roll_ins)@ == old(roll_ins)@.update(i, Some(ro))) }})''')
     r.ensures('a_height_matching_no_phase_must_open_to_zero', f'''{FIRST} >= folded_height_after@.len() ==> ret is Ok && final(roll_ins)@ == old(roll_ins)@
             && final(builder).sat@ == (old(builder).sat@ && old(builder).val(ro) == EF::fzero())''')
+    # native verify_query: UnconsumedReducedOpenings for such a height WHATEVER the opening is; the circuit accepts it when it is zero (open finding)
+    r.ensures('H_a_reduced_opening_at_a_height_no_phase_lands_on_is_an_error', f'{FIRST} >= folded_height_after@.len() ==> ret is Err')
     r.ensures('errors_are_invalid_proof_shape', 'ret matches Err(e) ==> e is InvalidProofShape')
     if 'for pos_ in 0..folded_height_after.len()' in r.body:
         lo = r._loop_open('for pos_ in 0..folded_height_after.len()')
